@@ -460,7 +460,7 @@ func init() {
 			"targets are the fixed list in harness/internal/monitor/c14.go, bound by name",
 			"termination is decided by the journal / two-stage hang rule and the memory watchdog; no model is needed",
 		},
-		Oracles:      map[string]func(*core.Ctx, *core.Case){"one": c14One, "sweep": c14Sweep, "concurrent-cold": c14ConcurrentCold},
+		Oracles:      map[string]func(*core.Ctx, *core.Case){"cold-entries": coldEntries, "one": c14One, "sweep": c14Sweep, "concurrent-cold": c14ConcurrentCold},
 		StallSeconds: 30,
 		Exhaustive: func(tier string) (bool, string) {
 			if tier == "thorough" {
@@ -607,6 +607,7 @@ func init() {
 				}
 			}
 		}})
+		us = append(us, coldEntryUnits(tier, "nasConvert", "ident", "lists", "misc")...)
 		return us
 	}
 	core.Register(p)
